@@ -475,9 +475,9 @@ pub fn replay_sweep(path: &str) {
 }
 
 /// stage record for literal inputs: lines {"A":mp,"B":mp,"op":"..","F":"f32"|"f64"}
-pub fn stage_inputs(path: &str) {
+pub fn stage_inputs(path: &str, rid0: u64, matrix_max: usize, family: &str) {
     let text = std::fs::read_to_string(path).expect("file");
-    let mut rid = 1;
+    let mut rid = rid0;
     for line in text.lines().filter(|l| !l.trim().is_empty()) {
         let v: serde_json::Value = serde_json::from_str(line).expect("json");
         let mp = |x: &serde_json::Value| -> IMp {
@@ -490,9 +490,9 @@ pub fn stage_inputs(path: &str) {
         let mut rng = Rng::new(1);
         let op = v["op"].as_str().unwrap();
         if v["F"].as_str() == Some("f32") {
-            println!("{}", stage_run::<f32>(rid, "literal", 0, &a, &b, op, 0, &mut rng));
+            println!("{}", stage_run::<f32>(rid, family, 0, &a, &b, op, matrix_max, &mut rng));
         } else {
-            println!("{}", stage_run::<f64>(rid, "literal", 0, &a, &b, op, 0, &mut rng));
+            println!("{}", stage_run::<f64>(rid, family, 0, &a, &b, op, matrix_max, &mut rng));
         }
         rid += 1;
     }
